@@ -11,6 +11,8 @@
 package planner
 
 import (
+	"errors"
+
 	"github.com/sourcenetwork/immutable"
 
 	"github.com/sourcenetwork/defradb/client"
@@ -615,17 +617,21 @@ func (r *primaryObjectsRetriever) retrievePrimaryDocs() ([]core.Doc, error) {
 	r.primaryScan.initFetcher(immutable.None[string]())
 
 	docs, err := r.collectDocs(0)
-	if err != nil {
-		return nil, err
-	}
 
-	err = r.primaryScan.fetcher.Close()
-	if err != nil {
-		return nil, err
-	}
+	// The temporary fetcher must be closed and the original one put back also when collecting
+	// the documents failed, otherwise the original fetcher is never closed and its iterator
+	// outlives the transaction.
+	closeErr := r.primaryScan.fetcher.Close()
 
 	r.primaryScan.fetcher = oldFetcher
 	r.primaryScan.index = oldIndex
+
+	if err != nil {
+		return nil, errors.Join(err, closeErr)
+	}
+	if closeErr != nil {
+		return nil, closeErr
+	}
 
 	return docs, nil
 }
